@@ -238,7 +238,9 @@ class ResultTypesGenerator:
             )
 
         if fragments:
-            class_bases = [str_to_pascal_case(f) for f in sorted(fragments)]
+            class_bases = [
+                str_to_pascal_case(f) for f in self._sort_fragments_bases(fragments)
+            ]
         else:
             class_bases = [BASE_MODEL_CLASS_NAME]
         if extra_bases:
@@ -567,6 +569,25 @@ class ResultTypesGenerator:
                 self._get_fragments_names(fragment_def.selection_set)
             )
         return fragments_names.union(self._unpacked_fragments)
+
+    def _sort_fragments_bases(self, fragments: Set[str]) -> List[str]:
+        """Sort alphabetically, but fragment spreading another one goes first (MRO)."""
+        sorted_names: List[str] = []
+        remaining = sorted(fragments)
+        while remaining:
+            spread_by_others: Set[str] = set()
+            for name in remaining:
+                spread_by_others = spread_by_others.union(
+                    self._get_fragments_names(
+                        self.fragments_definitions[name].selection_set
+                    )
+                )
+            name = next(
+                (n for n in remaining if n not in spread_by_others), remaining[0]
+            )
+            sorted_names.append(name)
+            remaining.remove(name)
+        return sorted_names
 
     def _get_fragments_names(self, selection_set: SelectionSetNode) -> Set[str]:
         names: Set[str] = set()
